@@ -855,7 +855,13 @@ impl Kanata {
         tick_record_state(&mut self.dynamic_macro_record_state);
         zippy_tick(self.caps_word.is_some());
         self.prev_keys.clear();
-        self.prev_keys.append(&mut self.cur_keys);
+        // Keyberon can report the same key code more than once. Remember each code once, so that
+        // its release is also sent once.
+        for k in self.cur_keys.drain(..) {
+            if !self.prev_keys.contains(&k) {
+                self.prev_keys.push(k);
+            }
+        }
         self.tick_held_vkeys();
         #[cfg(feature = "simulated_output")]
         {
